@@ -200,10 +200,14 @@ func Run(tier string, seed int64, outDir string) *common.Meta {
 	var lines, idx []string
 	classCount := map[string]int{}
 	distinct := map[string]bool{}
+	// the group filter exhaustively: every enable x disable value against one file holding all groups
+	nFilter := len(enables) * len(disables)
+	n += nFilter
 	for ci := 0; ci < n; ci++ {
 		dir := filepath.Join(root, fmt.Sprintf("c%d", ci))
 		// --- draw the case ---
 		var c cfg
+		filterCase := ci < nFilter
 		c.failOn = failOns[rng.Intn(len(failOns))]
 		if rng.Intn(3) > 0 {
 			c.failOn = failOns[rng.Intn(4)] // mostly valid values
@@ -232,6 +236,11 @@ func Run(tier string, seed int64, outDir string) *common.Meta {
 		}
 		var pats []pat
 		fileNo := 0
+		if filterCase {
+			c = cfg{failOn: "", legacy: false, enable: enables[ci/len(disables)], disable: disables[ci%len(disables)]}
+			np = 0
+			pats = append(pats, pat{text: filepath.Join(dir, "all.go"), files: []file{{name: "all.go", kind: "valid", gs: pool}}})
+		}
 		for pi := 0; pi < np; pi++ {
 			switch rng.Intn(10) {
 			case 0:
